@@ -13,7 +13,7 @@
 (***************************************************************************)
 EXTENDS Integers, Sequences, FiniteSets, TLC, Json
 
-CONSTANTS Cls, MsgKinds, Outs, DelayCls, Vals, Depth, Variant, MaxObjs
+CONSTANTS Cls, MsgKinds, Outs, DelayCls, Vals, Depth, Variant, MaxObjs, Parents
 \* Cls subset of {"P","C","N","T"}: P = instructor subclass of Feedback, C = subclass of P, T = a tool feedback
 Attrs == {"template", "title"}
 \* N = another subclass of P whose own class body sets title = None, masking P's title
@@ -83,7 +83,8 @@ CanAct == Len(hist) < Depth
 Attach(o, i) == /\ active' = IF o.list = "active" THEN Append(active, i) ELSE active
                 /\ ignored' = IF o.list = "ignored" THEN Append(ignored, i) ELSE ignored
 
-Create(cls, mk, out, delay) ==
+\* par: the `parent` keyword -- "none", or "str": a section named by a plain string (bookkeeping is the same)
+Create(cls, mk, out, delay, par) ==
     /\ CanAct /\ Len(objs) < MaxObjs
     /\ ~(mk = "explicit" /\ out = "MR") /\ ~(cls = "T" /\ out = "CR") /\ ~(cls = "T" /\ mk = "kwnested")
     /\ delay => cls \in DelayCls
@@ -95,14 +96,14 @@ Create(cls, mk, out, delay) ==
           ELSE LET h == IF Variant = "impl" THEN Handle(o0) ELSE MutHandle(o0) IN
                /\ objs' = Append(objs, h.obj) /\ Attach(h.obj, i) /\ raised' = h.raises
     /\ UNCHANGED <<attr, table, backup, overridden, fmt>>
-    /\ Step([op |-> "create", cls |-> cls, mk |-> mk, out |-> out, delay |-> delay, v |-> "-", attr |-> "-", i |-> 0])
+    /\ Step([op |-> "create", cls |-> cls, mk |-> mk, out |-> out, delay |-> delay, v |-> "-", attr |-> "-", i |-> 0, par |-> par])
 
 HandleDelayed(i) ==
     /\ CanAct /\ i \in 1..Len(objs) /\ objs[i].status = "delayed"
     /\ LET h == IF Variant = "impl" THEN Handle(objs[i]) ELSE MutHandle(objs[i]) IN
        /\ objs' = [objs EXCEPT ![i] = h.obj] /\ Attach(h.obj, i) /\ raised' = h.raises
     /\ UNCHANGED <<attr, table, backup, overridden, fmt>>
-    /\ Step([op |-> "handle", cls |-> "-", mk |-> "-", out |-> "-", delay |-> FALSE, v |-> "-", attr |-> "-", i |-> i])
+    /\ Step([op |-> "handle", cls |-> "-", mk |-> "-", out |-> "-", delay |-> FALSE, v |-> "-", attr |-> "-", i |-> i, par |-> "-"])
 
 (* ---------- Feedback.override / _restore_overrides, written like the code ---------- *)
 \* `if cls._override_backups is None: cls._override_backups = {}` -- attribute lookup goes through the
@@ -123,7 +124,7 @@ Override(c, a, v) ==
           /\ attr' = [attr EXCEPT ![c][a] = v]
     /\ overridden' = overridden \cup {c} /\ raised' = FALSE
     /\ UNCHANGED <<objs, active, ignored, fmt>>
-    /\ Step([op |-> "override", cls |-> c, mk |-> "-", out |-> "-", delay |-> FALSE, v |-> v, attr |-> a, i |-> 0])
+    /\ Step([op |-> "override", cls |-> c, mk |-> "-", out |-> "-", delay |-> FALSE, v |-> v, attr |-> a, i |-> 0, par |-> "-"])
 
 \* clear_overridden_feedback: for each overridden class (set iteration order is not specified; the model
 \* restores P before C, T independent), setattr from its table, then clear that table.
@@ -151,19 +152,19 @@ ClearEffects(order) ==
     /\ UNCHANGED table
 
 Clear == /\ CanAct /\ (ClearEffects(OrderP) \/ ClearEffects(OrderC))
-         /\ Step([op |-> "clear", cls |-> "-", mk |-> "-", out |-> "-", delay |-> FALSE, v |-> "-", attr |-> "-", i |-> 0])
+         /\ Step([op |-> "clear", cls |-> "-", mk |-> "-", out |-> "-", delay |-> FALSE, v |-> "-", attr |-> "-", i |-> 0, par |-> "-"])
 Contextualize(clr) ==
     /\ CanAct
     /\ IF clr THEN (ClearEffects(OrderP) \/ ClearEffects(OrderC))
        ELSE raised' = FALSE /\ UNCHANGED <<objs, active, ignored, attr, table, backup, overridden, fmt>>
     /\ Step([op |-> IF clr THEN "context_clear" ELSE "context_keep", cls |-> "-", mk |-> "-", out |-> "-",
-             delay |-> FALSE, v |-> "-", attr |-> "-", i |-> 0])
+             delay |-> FALSE, v |-> "-", attr |-> "-", i |-> 0, par |-> "-"])
 SetFormatter(f) ==
     /\ CanAct /\ f # fmt /\ fmt' = f /\ raised' = FALSE
     /\ UNCHANGED <<objs, active, ignored, attr, table, backup, overridden>>
-    /\ Step([op |-> "setfmt", cls |-> "-", mk |-> "-", out |-> "-", delay |-> FALSE, v |-> f, attr |-> "-", i |-> 0])
+    /\ Step([op |-> "setfmt", cls |-> "-", mk |-> "-", out |-> "-", delay |-> FALSE, v |-> f, attr |-> "-", i |-> 0, par |-> "-"])
 
-Next == \/ \E c \in Cls, mk \in MsgKinds, out \in Outs, d \in BOOLEAN : Create(c, mk, out, d)
+Next == \/ \E c \in Cls, mk \in MsgKinds, out \in Outs, d \in BOOLEAN, par \in Parents : Create(c, mk, out, d, par)
         \/ \E i \in 1..MaxObjs : HandleDelayed(i)
         \/ \E c \in Cls, a \in Attrs : \E v \in Vals \cup {Pristine[c][a]} : Override(c, a, v)
         \/ Clear \/ Contextualize(TRUE) \/ Contextualize(FALSE)
